@@ -250,7 +250,7 @@ def run_with(ctx, judge_fn, rule_tail):
             "reversed order (thorough: rotations too). Option sets: 'near' = every set of the 13 simplification switches and "
             "eliminable_variable_expression within Hamming distance 1 of the default and of all-on, on (A) in source order, on (B) for "
             "pairs of 6 core forms, (thorough) on (C) in source order; 'wide' = distance 2, thorough only, on (B) core pairs in source / "
-            "reversed order. (D) non-triangular systems: der(s) = a1 plus every non-singular set of k equations from a pool of alias / "
+            "reversed order. (D) non-triangular systems: der(s) = 2 * a1 + u plus every non-singular set of k equations from a pool of alias / "
             "shift / constant forms over the ordered pairs of k = 2 (thorough: 3 with all forms; quick: 3 with the two plain alias forms) "
             "unknowns -- alias cycles with inconsistent signs, mutually defined unknowns -- in source and reversed order. (E) models of (A) "
             "in source order with an initial equation (s = 2 * p; a_n = 7 * s + u): DAE + initial equations are compared as one system. "
